@@ -3050,7 +3050,10 @@ static Type *struct_union_decl(Token **rest, Token *tok) {
   if (tag && !equal(tok, "{")) {
     *rest = tok;
 
-    Type *ty2 = find_tag(tag);
+    // "struct T;" declares T as a tag of the current scope even if an
+    // enclosing scope has a struct T, so only this scope is searched.
+    Type *ty2 = equal(tok, ";") ? hashmap_get2(&scope->tags, tag->loc, tag->len)
+                                : find_tag(tag);
     if (ty2)
       return ty2;
 
